@@ -132,7 +132,8 @@ theorem H_needed :
 /-- **Negation witness for the finding `C27:aborted-delete-corrupts-pending-node`** (observed on the real trie:
 `hist; b 4528; t; i pd; i pb; c; t; d pb; a; fin; check 4528` → `missing`). The block persists the node set `new`
 its change collector holds, but its state contains a node `a` that is neither in the previous state nor in `new`
-(the collector's pending copy was altered to `a'` by the aborted transaction). The chain hypothesis of
+(the collector's pending copy was altered to `a'` by the Delete of a transaction whose trie was then discarded:
+aborted, or committed without net change — delete + re-insert of the same value — so that `MergeMPTChanges` skips it). The chain hypothesis of
 `prune_safe` fails for such a block, and its complete state cannot be read back — with no pruning at all. -/
 theorem unpersisted_state_node_unreadable :
     let ops := [Op.fin ⟨5, ["r", "a'"], [], ["r", "a"]⟩]
